@@ -35,13 +35,13 @@ CHECKS["C08"] = dict(
 )
 
 CHECKS["C02"] = dict(
-    pkg="codec", run="^TestC02_", level="exploration", crash_is_violation=True,
+    parts=[dict(pkg="codec", run="^TestC02_"), dict(pkg="lang", run="^TestC02_")], level="exploration", crash_is_violation=True,
     quick=dict(shards=8, checks=60, timeout=900),
     thorough=dict(shards=16, checks=600, timeout=3000, fuzz=[dict(pkg="codec", target="FuzzRead", seconds=90)]),
     assumptions=[
         "size bound asserted only when no error is returned (DecodeFloat64 returns n=-1 with an error)",
         "List.Get(i)/GetBytes(i) with i outside [0,Len) panic by documentation and are not called",
-        "struct decoders emitted by the generator are exercised by the lang engine's kitchen-sink sub-run when available",
+        "struct decoders and message readers emitted by the generator are exercised by the lang part (emitted hostile-input driver inside each generated package)",
     ],
 )
 
